@@ -337,7 +337,20 @@ func newGeneratorInterp(L *Loaded) (*Interp, func() *Obj) {
 		cObj.set("latestReturn", v)
 		cObj.set("latestReturnType", g)
 		cObj.set("latestIsTemp", temp)
-		in.event("evaluate:"+string(name), "", call.Pos(), cObj.get("cbb"), v, cObj.get("scp"))
+		startBlock := cObj.get("cbb")
+		// an operand marked multiblock stands for an expression whose code spans several basic blocks (a nested und/oder, an
+		// index with its bounds check, falls …): evaluation ends in another block than it started in
+		if mb, known := truth(n.get("multiblock")); known && mb {
+			nb := newObj("ir.Block")
+			nb.set("Term", NilV{})
+			if sb, ok := startBlock.(*Obj); ok {
+				t := newObj("term")
+				sb.set("Term", t)
+				in.event("term:NewBr", "", call.Pos(), sb, nb)
+			}
+			cObj.set("cbb", nb)
+		}
+		in.event("evaluate:"+string(name), "", call.Pos(), startBlock, v, cObj.get("scp"), cObj.get("cbb"))
 		return TupleV{v, g, temp}, true
 	}
 	in.Models["compiler.(*compiler).err"] = func(in *Interp, pkg *packages.Package, call *ast.CallExpr, recv Val, args []Val) (Val, bool) {
